@@ -21,7 +21,7 @@ impl MapKey for Res { type Value = u8; }
 #[derive(Clone, Debug, PartialEq)]
 pub enum Step {
   Read(u8, u8),        // resource, checker kind: 0 equals, 1 parity, 2 exists, 3 equals-but-check-fails-on-demand
-  Require(u8, u8),     // task, checker kind: 0 equals, 1 always-consistent
+  Require(u8, u8),     // task, checker kind: 0 equals, 1 always-consistent, 2 within-1-of-the-stamped-output
   Write(u8, u8),       // resource, constant added to the accumulator
   WrittenTo(u8, u8),   // resource: create_writer + written_to
   IfOdd(Vec<Step>, Vec<Step>),
@@ -122,6 +122,7 @@ fn exec<C: Context>(steps: &[Step], c: &mut C, acc: &mut u32) {
       }
       Step::Require(t, k) => {
         if *k == 0 { let o = c.require(&T(*t), EqualsChecker); seen_require(format!("T({})", t), format!("{:?}", o), format!("{:?}", o)); mix(acc, o); }
+        else if *k == 2 { let o = c.require(&T(*t), Within1); seen_require(format!("T({})", t), format!("{:?}", o), format!("{:?}", o)); }   // (the exact value is not mixed in: the requirer only observes what the coarse checker does)
         else { let o = c.require(&T(*t), AlwaysConsistent); seen_require(format!("T({})", t), "()".to_string(), format!("{:?}", o)); }
       }
       Step::Write(r, add) => {
@@ -232,7 +233,8 @@ impl<'m> Walk<'m> {
         } else { self.make_consistent(&t, n)?; }
         if n.kind == "check_task" && self.strict && n.closed {
           let exp = if n.checker == "AlwaysConsistent" { "consistent" } else if self.m.out.get(&t) == Some(&n.stamp) { "consistent" } else { "inconsistent" };
-          if n.checker == "AlwaysConsistent" || n.checker == "EqualsChecker" { if n.verdict != exp { fail!("C09", "C09.bounded.verdict_is_the_checkers_verdict_on_the_creation_stamp", "require dependency on {} with {} and stamp {} was reported {} although the task's output is {:?}", t, n.checker, n.stamp, n.verdict, self.m.out.get(&t)); } }
+          let exp = if n.checker == "Within1" { match (self.m.out.get(&t).and_then(|o| o.parse::<u32>().ok()), n.stamp.parse::<u32>().ok()) { (Some(o), Some(st)) => if o.abs_diff(st) > 1 { "inconsistent" } else { "consistent" }, _ => exp } } else { exp };
+          if n.checker == "AlwaysConsistent" || n.checker == "EqualsChecker" || n.checker == "Within1" { if n.verdict != exp { fail!("C09", "C09.bounded.verdict_is_the_checkers_verdict_on_the_creation_stamp", "require dependency on {} with {} and stamp {} was reported {} although the task's output is {:?}", t, n.checker, n.stamp, n.verdict, self.m.out.get(&t)); } }
         }
         Ok(())
       }
@@ -863,6 +865,13 @@ pub fn twin_resources() -> Result<(), Fail> {
   Ok(())
 }
 
+/// a coarse output checker whose tolerance does not add up: consistent while the output is within 1 of the STAMPED output
+#[derive(Copy, Clone, PartialEq, Eq, Hash, Debug)] pub struct Within1;
+impl pie::OutputChecker<u32> for Within1 {
+  type Stamp = u32;
+  fn stamp(&self, o: &u32) -> u32 { *o }
+  fn check(&self, o: &u32, s: &u32) -> Option<impl Debug> { if o.abs_diff(*s) > 1 { Some(*o) } else { None } }
+}
 // ---- C15: a task and a resource never share a node, even when one type plays both roles with equal values ------------------------
 #[derive(Clone, PartialEq, Eq, Hash, Debug)] pub struct Both(pub u8);
 impl MapKey for Both { type Value = u8; }
@@ -981,6 +990,10 @@ pub fn fixed_cases() -> Vec<(&'static str, Vec<Vec<Step>>, Vec<Act>)> {
     ("a check that fails for a reader of a resource written during the bottom-up build",
      vec![vec![Read(0, 0), Write(2, 1)], vec![Require(0, 1), Read(2, 3)]],
      vec![Act::Set(0, 0), Act::TopDown(1), Act::Set(0, 1), Act::BottomUpFlaky, Act::TopDown(1)]),
+    // a coarse output checker whose tolerance does not add up: 73 -> 74 is tolerated, 74 -> 75 is NOT tolerated by a dependency stamped at 73
+    ("tolerated changes of a required output do not move the stamp the dependency was created with",
+     vec![vec![Require(1, 2)], vec![Read(0, 0)]],
+     vec![Act::Set(0, 10), Act::TopDown(0), Act::Set(0, 11), Act::TopDown(0), Act::Set(0, 12), Act::TopDown(0), Act::Set(0, 13), Act::TopDown(0)]),
     ("a check that fails for a task validated two levels below the required root",
      vec![vec![Require(1, 0)], vec![Read(0, 3)]],
      vec![Act::Set(0, 0), Act::TopDown(0), Act::Set(0, 1), Act::TopDownFlaky(0), Act::TopDown(0)]),
